@@ -679,6 +679,23 @@ fn ref_respond(spec: &RefServerSpec, ordinal: usize, request: &[u8], src: Socket
                 Rng::derive(*seed, "wrong-root").fill(&mut parts.root);
                 parts.sign_srep(&online_seed);
             }
+            Forgery::ResignedRootPrefixKept(keep) => {
+                let n = parts.root.len();
+                let keep = (*keep as usize).min(n.saturating_sub(1));
+                for b in parts.root[keep..].iter_mut() {
+                    *b = !*b;
+                }
+                parts.sign_srep(&online_seed);
+            }
+            Forgery::ResignedFillRoot(byte) => {
+                parts.root.fill(*byte);
+                parts.sign_srep(&online_seed);
+            }
+            Forgery::Fill { region, byte } => {
+                if let Some(v) = parts.region(region) {
+                    v.fill(*byte);
+                }
+            }
             Forgery::Drop => out = Some(vec![]),
             other => post.push(other.clone()),
         }
